@@ -31,6 +31,7 @@ Proof.
   assert (Hi : index (c :: s) 0 = Ok c).
   { unfold index. replace ((0 <=? 0) && (0 <? zlen (c :: s))) with true by lia. reflexivity. }
   rewrite Hi. cbn [of_res lbind]. apply okr_ret. split; [|reflexivity].
+  split; [|intros H; discriminate H].
   split; [|split].
   - split; cbn [offset ch]; [lia|]. symmetry. apply getch_index. exact Hi.
   - cbn [offset]. lia.
@@ -38,7 +39,8 @@ Proof.
 Qed.
 
 Theorem scan_all_spec src ds :
-  okr (fun os => all_ok src os /\ ends_final os /\ first_bad os false /\ explained src False os) (scan_all src ds).
+  okr (fun os => all_ok src os /\ ends_final os /\ first_bad os false /\ explained src False os /\ over_ok src os)
+      (scan_all src ds).
 Proof.
   destruct src as [|c s] eqn:Esrc.
   - (* the empty source: one EOF token at 1:1 *)
@@ -52,11 +54,12 @@ Proof.
     + eexists [], _. splits; [reflexivity|reflexivity|constructor].
     + reflexivity.
     + cbn. split; [intros H; discriminate H|exact I].
+    + constructor; [intros H; discriminate H|constructor].
   - rewrite <- Esrc. unfold scan_all.
     eapply okr_bind; [apply (new_lexer_norm src c s Esrc)|].
     intros l (Hn & Hx).
     eapply okr_weaken; [apply (scan_loop_spec src _ ds l Hn (lex_fuel_enough src l Hn))|].
-    intros os (H1 & H2 & H3 & H4). rewrite Hx in H3. splits; try assumption.
+    intros os (H1 & H2 & H3 & H4 & H5). rewrite Hx in H3. splits; try assumption.
     apply (explained_weaken src os (xl l = true)); [rewrite Hx; intros K; discriminate K|exact H4].
 Qed.
 
@@ -80,7 +83,7 @@ Qed.
 Theorem first_token_unaffected src ds os :
   scan_all src ds = LOk os -> exists o rest, os = o :: rest /\ tbad (otok o) = false.
 Proof.
-  intros E. destruct (scan_all_spec src ds) as (os' & E' & _ & _ & Hf & _).
+  intros E. destruct (scan_all_spec src ds) as (os' & E' & _ & _ & Hf & _ & _).
   rewrite E in E'. injection E' as <-. destruct os as [|o rest]; [contradiction|]. eauto.
 Qed.
 
@@ -103,7 +106,7 @@ Theorem bad_has_cause src ds os pre o post :
   scan_all src ds = LOk os -> os = pre ++ o :: post -> tbad (otok o) = true ->
   exists n, In n pre /\ cause src (otok n).
 Proof.
-  intros E -> Hb. destruct (scan_all_spec src ds) as (os' & E' & _ & _ & _ & Hex).
+  intros E -> Hb. destruct (scan_all_spec src ds) as (os' & E' & _ & _ & _ & Hex & _).
   rewrite E in E'. injection E' as <-.
   destruct (explained_split src pre False o post Hex Hb) as [[]|H]. exact H.
 Qed.
@@ -130,6 +133,27 @@ Proof.
   destruct (lexer_positions_guarded src ds os E o Hin) as (H & _).
   - split; [eapply no_dangling_no_bad; eauto|intros; contradiction].
   - exact (H Hk).
+Qed.
+
+(* the flag tover is raised only if the last byte of the source is a backslash *)
+Theorem over_has_cause src ds os :
+  scan_all src ds = LOk os -> forall o, In o os -> tover (otok o) = true ->
+  getch src (zlen src - 1) = 92.
+Proof.
+  intros E o Hin Ho. destruct (scan_all_spec src ds) as (os' & E' & _ & _ & _ & _ & Hov).
+  rewrite E in E'. injection E' as <-. unfold over_ok in Hov. rewrite Forall_forall in Hov.
+  exact (Hov o Hin Ho).
+Qed.
+
+(* both guards in terms of the source text only *)
+Theorem lexer_positions_textual src ds os :
+  no_dangling_eol src -> getch src (zlen src - 1) <> 92 -> scan_all src ds = LOk os ->
+  forall o, In o os -> token_claim src (otok o).
+Proof.
+  intros Hnd Hbs E o Hin. apply (lexer_positions_guarded src ds os E o Hin). split.
+  - eapply no_dangling_no_bad; eauto.
+  - intros _. destruct (tover (otok o)) eqn:Ho; [|reflexivity].
+    exfalso. apply Hbs. exact (over_has_cause src ds os E o Hin Ho).
 Qed.
 
 (* ---- the unguarded statement and its refutation on the pinned tree ---------------------- *)
